@@ -36,6 +36,7 @@ func init() {
 			{ID: "C13-R12", Title: "the virtual working directory stays absolute and clean", Floor: 1, Run: virtualCwdStaysAbsolute},
 			{ID: "C13-R13", Title: "parent tests are component-wise", Floor: 1, Run: parentTestsAreComponentWise},
 			{ID: "C13-R14", Title: "mounts hand their source a rooted path", Floor: 1, Run: mountsHandTheirSourceARootedPath},
+			{ID: "C13-R15", Title: "mount points are normalised when they are registered", Floor: 1, Run: mountPointsAreNormalisedWhenTheyAreRegistered},
 		},
 	})
 }
